@@ -768,6 +768,14 @@ class Fxp():
         # (the object stays scaled when a raw value is set: only the conversion of the input value is skipped)
         self.scaled = bool(self.scale is not None and self.bias is not None and (self.bias != 0 or self.scale != 1))
         if self.scale is not None and self.bias is not None and not raw:
+            if self.bias != 0 or self.scale != 1:
+                # the affine conversion is not calculated in a narrow or unsigned numpy type (it would wrap around or lose precision)
+                if val.dtype.kind == 'f' and val.dtype.itemsize < 8:
+                    val = val.astype(np.float64)
+                elif val.dtype.kind == 'c' and val.dtype.itemsize < 16:
+                    val = val.astype(np.complex128)
+                elif val.dtype.kind in 'iu' and val.dtype != np.int64 and val.size > 0 and int(np.max(val)) < 2**62:
+                    val = val.astype(np.int64)
             if self.bias != 0:
                 if val.dtype.kind in 'iu' and val.size > 0 and max(abs(int(np.max(val))), abs(int(np.min(val)))) >= 2**62:
                     val = val.astype(object)    # integers close to the 64 bits limits: the bias is subtracted with python integers
